@@ -256,8 +256,17 @@ def _source_gated(ctx, g, it):
             cur, gated = y, False
             while cur in pm:
                 par = pm[cur]
-                if isinstance(par, ast.If) and any(cur is s or cur in ast.walk(s) for s in par.body):
+                in_body = isinstance(par, ast.If) and any(cur is s or cur in ast.walk(s) for s in par.body)
+                in_else = isinstance(par, ast.If) and any(cur is s or cur in ast.walk(s) for s in par.orelse)
+                if in_body or in_else:
                     t = par.test
+                    neg = False
+                    while isinstance(t, ast.UnaryOp) and isinstance(t.op, ast.Not):
+                        t, neg = t.operand, not neg
+                    # the yield must be on the side where the gate answered True
+                    if neg == in_body:
+                        cur = par
+                        continue
                     calls = [c for c in ast.walk(t) if isinstance(c, ast.Call) and c.args and isinstance(c.args[0], ast.Name) and c.args[0].id == y.value.id]
                     for c in calls:
                         gcs = r.site_of.get(id(c))
